@@ -4,6 +4,7 @@
 //! given on the command line.
 
 mod canon;
+mod eqv;
 mod gen;
 mod gperf;
 mod grad;
@@ -26,6 +27,7 @@ fn main() {
         "gs_exh" => gs::main_exh(arg(&args, 2, 0), arg(&args, 3, 1), arg(&args, 4, 0)),
         "gs_rand" => gs::main_rand(arg(&args, 2, 0), arg(&args, 3, 100)),
         "strains" => strains::main(arg(&args, 2, 0), arg(&args, 3, 100), arg(&args, 4, 40)),
+        "c04" | "c07" | "c08" | "c18" => eqv::main(cmd, arg(&args, 2, 0), arg(&args, 3, 100), arg(&args, 4, 40)),
         "gperf" => gperf::main(arg(&args, 2, 0), arg(&args, 3, 100), arg(&args, 4, 40)),
         "grad" => grad::main(arg(&args, 2, 0), arg(&args, 3, 100), arg(&args, 4, 40)),
         _ => {
